@@ -13,8 +13,12 @@ fn ang_sep_deg(a: (f64, f64), b: (f64, f64)) -> f64 {
 }
 
 macro_rules! space_pair_checks {
-    ($acc:expr, $idx:expr, $name:expr, $sp:expr, $a:expr, $b:expr, $scale:expr) => {{
+    ($acc:expr, $idx:expr, $name:expr, $sp:expr, $a:expr, $b:expr, $scale:expr) => {
+        space_pair_checks!($acc, $idx, $name, $sp, $a, $b, $scale, true)
+    };
+    ($acc:expr, $idx:expr, $name:expr, $sp:expr, $a:expr, $b:expr, $scale:expr, $range:expr) => {{
         let (acc, idx, name, sp, a, b, scale): (&mut Acc, usize, &str, _, (f64, f64), (f64, f64), f64) = ($acc, $idx, $name, $sp, $a, $b, $scale);
+        let bearing_range: bool = $range;
         let (pa, pb) = (Point::new(a.0, a.1), Point::new(b.0, b.1));
         let w = |d: String| json!({"space": name, "a": [a.0, a.1], "b": [b.0, b.1], "detail": d});
         let r = guard(|| {
@@ -30,7 +34,8 @@ macro_rules! space_pair_checks {
             Err(e) => acc.viol(format!("{} panic on a lattice pair", name), idx, || w(e)),
             Ok((d, d2, brg, dest, back)) => {
                 let sep = ang_sep_deg(a, b);
-                let excluded = sep > 176.0; // within ~2% of antipodal
+                // within ~2% of antipodal, or an end point within a degree of a pole ('away from poles and antipodes')
+                let excluded = sep > 176.0 || a.1.abs() > 89.0 || b.1.abs() > 89.0;
                 acc.maxf(&format!("{} symmetry |d(a,b)-d(b,a)| (m, scaled)", name), (d - d2).abs() / scale);
                 if !(d >= 0.0) || !d.is_finite() {
                     acc.viol(format!("{} distance negative or not finite", name), idx, || w(format!("d={}", d)));
@@ -41,7 +46,7 @@ macro_rules! space_pair_checks {
                 if (d - d2).abs() > 1e-6 * scale {
                     acc.viol(format!("{} distance not symmetric", name), idx, || w(format!("d(a,b)={} d(b,a)={}", d, d2)));
                 }
-                if a != b && !(brg >= 0.0 && brg < 360.0) {
+                if bearing_range && a != b && !(brg >= 0.0 && brg < 360.0) {
                     acc.viol(format!("{} bearing outside [0,360)", name), idx, || w(format!("bearing={}", brg)));
                 }
                 if !(dest.x() >= -180.0 && dest.x() <= 180.0 && dest.y() >= -90.0 && dest.y() <= 90.0) {
@@ -121,10 +126,55 @@ macro_rules! space_pair_checks {
                     if (l - s).abs() > 1e-6 * scale {
                         acc.viol(format!("{} length of a line string is not the sum of its segment distances", name), idx, || w(format!("length={} sum={}", l, s)));
                     }
+                    // the other measurable types: a Line is its one segment, a MultiLineString the sum of its members
+                    let line = geo::Line::new(pa.0, pb.0);
+                    let mls = geo::MultiLineString(vec![ls.clone(), LineString::from(vec![pb, pa]), LineString::<f64>(vec![])]);
+                    if let Ok((ll, lm)) = guard(|| (sp.length(&line), sp.length(&mls))) {
+                        acc.evals += 2;
+                        if (ll - d).abs() > 1e-6 * scale {
+                            acc.viol(format!("{} length of a Line is not the distance of its end points", name), idx, || w(format!("length={} distance={}", ll, d)));
+                        }
+                        if (lm - (l + d2)).abs() > 1e-6 * scale {
+                            acc.viol(format!("{} length of a MultiLineString is not the sum of its members", name), idx, || w(format!("length={} sum={}", lm, l + d2)));
+                        }
+                    }
                 }
             }
         }
     }};
+}
+
+/// The deprecated per-function traits are entry points into the same three metric spaces; wrapped so that the same identities run on them.
+#[allow(deprecated)]
+mod legacy {
+    use geo::*;
+    pub struct H;
+    pub struct G;
+    pub struct R;
+    impl H {
+        pub fn distance(&self, a: Point<f64>, b: Point<f64>) -> f64 { a.haversine_distance(&b) }
+        pub fn bearing(&self, a: Point<f64>, b: Point<f64>) -> f64 { a.haversine_bearing(b) }
+        pub fn destination(&self, a: Point<f64>, brg: f64, d: f64) -> Point<f64> { a.haversine_destination(brg, d) }
+        pub fn point_at_ratio_between(&self, a: Point<f64>, b: Point<f64>, r: f64) -> Point<f64> { a.haversine_intermediate(&b, r) }
+        pub fn points_along_line(&self, a: Point<f64>, b: Point<f64>, max: f64, ends: bool) -> std::vec::IntoIter<Point<f64>> { a.haversine_intermediate_fill(&b, max, ends).into_iter() }
+        pub fn length(&self, g: &impl HaversineLength<f64>) -> f64 { g.haversine_length() }
+    }
+    impl G {
+        pub fn distance(&self, a: Point<f64>, b: Point<f64>) -> f64 { a.geodesic_distance(&b) }
+        pub fn bearing(&self, a: Point<f64>, b: Point<f64>) -> f64 { a.geodesic_bearing(b) }
+        pub fn destination(&self, a: Point<f64>, brg: f64, d: f64) -> Point<f64> { a.geodesic_destination(brg, d) }
+        pub fn point_at_ratio_between(&self, a: Point<f64>, b: Point<f64>, r: f64) -> Point<f64> { a.geodesic_intermediate(&b, r) }
+        pub fn points_along_line(&self, a: Point<f64>, b: Point<f64>, max: f64, ends: bool) -> std::vec::IntoIter<Point<f64>> { a.geodesic_intermediate_fill(&b, max, ends).into_iter() }
+        pub fn length(&self, g: &impl GeodesicLength<f64>) -> f64 { g.geodesic_length() }
+    }
+    impl R {
+        pub fn distance(&self, a: Point<f64>, b: Point<f64>) -> f64 { a.rhumb_distance(&b) }
+        pub fn bearing(&self, a: Point<f64>, b: Point<f64>) -> f64 { a.rhumb_bearing(b) }
+        pub fn destination(&self, a: Point<f64>, brg: f64, d: f64) -> Point<f64> { a.rhumb_destination(brg, d) }
+        pub fn point_at_ratio_between(&self, a: Point<f64>, b: Point<f64>, r: f64) -> Point<f64> { a.rhumb_intermediate(&b, r) }
+        pub fn points_along_line(&self, a: Point<f64>, b: Point<f64>, max: f64, ends: bool) -> std::vec::IntoIter<Point<f64>> { a.rhumb_intermediate_fill(&b, max, ends).into_iter() }
+        pub fn length(&self, g: &impl RhumbLength<f64>) -> f64 { g.rhumb_length() }
+    }
 }
 
 macro_rules! space_dest_checks {
@@ -202,6 +252,32 @@ pub fn run(mut run: Run) -> i32 {
             let mars = GeodesicMeasure::new(3396190.0, 0.00589) /* the parameter is named inverse_flattening but is handed to geographiclib as the flattening f */;
             space_pair_checks!(acc, idx, "GeodesicMeasure(mars)", &mars, a, b, 3396190.0 / 6378137.0);
         }
+    });
+    // the deprecated per-function traits (haversine_distance, geodesic_bearing, rhumb_intermediate_fill, ...) are entry points into the same spaces
+    // (their bearings are documented as 'north is 0, east is 90' without a range and come back in (-180, 180]: the [0, 360) clause is not applied to them)
+    let lstep = if quick { 5 } else { 2 };
+    run.stage("lattice-pairs-deprecated-entry-points", (n * n + lstep - 1) / lstep, |k, acc| {
+        let idx = k * lstep;
+        let (a, b) = (pts[idx / n], pts[idx % n]);
+        acc.class(format!("legacy sep{}", (ang_sep_deg(a, b) / 30.0) as i32));
+        space_pair_checks!(acc, idx, "legacy Haversine traits", &legacy::H, a, b, 1.0, false);
+        space_pair_checks!(acc, idx, "legacy Geodesic traits", &legacy::G, a, b, 1.0, false);
+        space_pair_checks!(acc, idx, "legacy Rhumb traits", &legacy::R, a, b, 1.0, false);
+    });
+    // the poles and their neighbourhood: the round trip is exempt there, everything else (symmetry, sign, zero, bearing range, output range, lengths) is not
+    let polar: Vec<(f64, f64)> = vec![(0.0, 90.0), (37.0, 90.0), (-180.0, 90.0), (0.0, -90.0), (123.0, -90.0), (10.0, 89.999), (-170.0, -89.999), (180.0, 89.5)];
+    run.stage("polar-partners", polar.len() * (n + polar.len()) * 2, |idx, acc| {
+        let (k, swap) = (idx / 2, idx % 2 == 1);
+        let p = polar[k / (n + polar.len())];
+        let j = k % (n + polar.len());
+        let q = if j < n { pts[j] } else { polar[j - n] };
+        let (a, b) = if swap { (q, p) } else { (p, q) };
+        acc.class(format!("polar lat{} first{}", p.1, !swap));
+        space_pair_checks!(acc, idx, "Haversine", &Haversine, a, b, 1.0);
+        space_pair_checks!(acc, idx, "Geodesic", &Geodesic, a, b, 1.0);
+        // a rhumb line is singular exactly at a pole (Mercator ordinate infinite): those pairs get their own signature class
+        let at_pole = a.1.abs() == 90.0 || b.1.abs() == 90.0;
+        space_pair_checks!(acc, idx, if at_pole { "Rhumb (an end point exactly at a pole)" } else { "Rhumb" }, &Rhumb, a, b, 1.0);
     });
     // neighbours and antimeridian partners
     let offs: Vec<(f64, f64)> = vec![(1e-6, 0.0), (-1e-6, 0.0), (0.0, 1e-6), (0.0, -1e-6), (1e-6, 1e-6), (-1e-6, 1e-6), (1e-6, -1e-6), (-1e-6, -1e-6), (0.0, 0.0)];
